@@ -197,6 +197,8 @@ func c15Config(p *PRNG, tier string) Config {
 			if e.StartOff > 0 {
 				e.StartOff = -e.StartOff
 			}
+		} else if p.Chance(1, 3) {
+			e.CurrentEpoch = int64(p.Range(1, 50)) // not started, but the genesis entry carries a number
 		}
 		c.Epochs = append(c.Epochs, e)
 	}
@@ -299,7 +301,7 @@ func c15Plan(p *PRNG, cfg Config, tier string) Plan {
 func init() {
 	Register(&PropSpec{
 		ID: "C15", Level: "exploration",
-		Rule: "case = (1-4 epoch identifiers with random duration 1s..3d, start time past/now/future, optional mid-count genesis entry) x (10-150 block-time steps drawn from {0, +1ns, sub-second, exactly on a boundary, boundary+1ns, multi-duration gap, fraction of duration, seconds}); real app with real subscribers wrapped by recorders; non-trivial = some identifier advanced >= 3 epochs AND at least one catch-up block or boundary-exact block time occurred; distinct by hash of (config, plan)",
+		Rule: "case = (1-4 epoch identifiers with random duration 1s..3d, start time past/now/future, optional mid-count genesis entry) (a third of the not-started entries carry a stale non-zero number in the genesis file) x (10-150 block-time steps drawn from {0, +1ns, sub-second, exactly on a boundary, boundary+1ns, multi-duration gap, fraction of duration, seconds}); real app with real subscribers wrapped by recorders; non-trivial = some identifier advanced >= 3 epochs AND at least one catch-up block or boundary-exact block time occurred; distinct by hash of (config, plan)",
 		Assumptions: []string{"block times are non-decreasing (CometBFT guarantees BFT time monotonicity)", "the epoch model is the reading of the statement: tick iff blockTime > currentStart+duration, one tick per block"},
 		Real:        []string{"x/epochs BeginBlocker and all five real epoch subscribers, wrapped in place by recording decorators"},
 		QuickRuns:   600, ThoroughRuns: 12000,
